@@ -1562,6 +1562,13 @@ class Vector : public vec::VectorWithInplaceStorage<T, Alloc, SizeType, GrowingP
     return *this;
   }
 
+  // The copy / move assignment operators above hide the one taking an initializer_list in the base class.
+  // Without this overload, 'v = {a, b}' would build a temporary vector and move assign it (losing capacity).
+  Vector &operator=(std::initializer_list<T> list) {
+    this->assign(list.begin(), list.end());
+    return *this;
+  }
+
   // Define swap here instead of VectorImpl as noexcept swap is possible only for same inplace capacity
   void swap(Vector &o) noexcept(N == 0 || vec::is_swap_noexcept<T>::value) {
     if (AMC_LIKELY(this != &o)) {  // swapping inline elements with themselves would self move-assign them
